@@ -16,7 +16,7 @@ PROPS = 'Props/C07.v' if _os.path.exists(_os.path.join(COQ, 'Props/C07.v')) else
 PRE = ('From Coq Require Import List ZArith.\nFrom PV Require Import Base.Exn Base.Values Base.Ann Model.Checker '
        'Model.GenericInstance Model.TypeVarEval.\nImport ListNotations.')
 OUT = {0: 'returned', 1: 'PedanticTypeCheckException', 2: 'PedanticTypeVarMismatchException', 3: 'other PedanticException',
-       4: 'non-Pedantic Exception', 5: 'BaseException', 9: 'absent'}
+       4: 'non-Pedantic Exception', 5: 'BaseException', 8: 'not run (the enclosing call was rejected before its body)', 9: 'absent'}
 VERD = {0: 'Unspec', 1: 'Must', 2: 'MustNot', 9: 'absent'}
 
 
@@ -252,6 +252,26 @@ def gen_typevars_case(rng):
     return {'stream': 'typevars', 'ctx': G.CTX, 'world': world, 'steps': steps}
 
 
+def gen_reentrancy_case(rng):
+    """stream `reentrancy`: a plain @pedantic function whose body calls the same decorated function again (depth 1-2,
+    usually with values of other classes) before it returns; every call is judged on its own"""
+    tvs = list({t['id']: t for t in rng.sample(CALL_TVS, rng.choice([1, 1, 2]))}.values())
+    sg = gen_sig(rng, tvs, ret_none=0.15)
+    if not any(has_tv(a) for a in sg['params']):
+        sg['params'][0] = T(tvs[0])
+    if rng.random() < 0.6:
+        sg['ret'] = T(tvs[0])
+
+    def node(depth):
+        args, ret = gen_call(rng, sg, {})
+        nested = [node(depth - 1) for _ in range(rng.choice([1, 1, 2]))] if depth > 0 else []
+        return [args, ret, nested]
+    # the outer call is mostly consistent: it is the one a leaking binding would spoil
+    vals = gen_args(rng, positions_of(sg), {}, rng.choice(['same', 'same', 'same', 'mixed', 'near']))
+    top = [vals[:-1], vals[-1], [node(rng.choice([0, 0, 1])) for _ in range(rng.choice([1, 1, 2]))]]
+    return {'stream': 'reentrancy', 'ctx': G.CTX, 'world': {'classes': [], 'funs': [sg]}, 'steps': [['fun', 0] + top]}
+
+
 def has_tv(a):
     k = a[0]
     if k == 'tv': return True
@@ -376,7 +396,7 @@ def evaluate(ck, cases):
 
 def judge_step(I, M, S, mm):
     """the property on the implementation, for one step"""
-    if I == 9 or M == 9:
+    if I in (8, 9) or M == 9:
         return None        # the addressed instance does not exist on one side: a correspondence matter
     if S == 1 and I != 0:
         return f'a call whose values are consistent (and conform) was rejected with {OUT.get(I, I)}'
@@ -471,6 +491,7 @@ def run(tier, seed, replay=None):
         n_h = (230 if tier == 'quick' else 700) * ck.scale()
         max_steps = 40 if tier == 'quick' else 400
         cases = [gen_typevars_case(ck.rng) for _ in range(n_tv)]
+        cases += [gen_reentrancy_case(ck.rng) for _ in range((300 if tier == 'quick' else 3000) * ck.scale())]
         for i in range(n_h):
             cases.append(gen_history_case(ck.rng, max_steps if i % 3 == 0 else max(12, max_steps // (2 if i % 3 == 1 else 4))))
     results = evaluate(ck, cases)
@@ -478,6 +499,7 @@ def run(tier, seed, replay=None):
             'mismatch_demanded': 0, 'x_kind': {}}
     bump = lambda name, key: hist[name].__setitem__(key, hist[name].get(key, 0) + 1)
     disagreements, pending, lost = [], [], 0
+    res_of = {}
     for c, (r, m) in zip(cases, results):
         if r is None or m is None or 'error' in (r or {}):
             lost += 1
@@ -487,8 +509,11 @@ def run(tier, seed, replay=None):
         bump('stream', c['stream'])
         bump('history_length', str(10 * (len(r['steps']) // 10)) + '+')
         seen_slots = {}
+        res_of[id(c)] = (r, m)
         for k, s in enumerate(r['steps']):
             I, (M, S, mm) = r['out'][k], m[k]
+            if I == 8:
+                bump('impl_outcome', 'not run'); continue
             facts = describe(c, r, k)
             bump('step_kind', s[0]); bump('class_kind', str(facts['class_kind'])); bump('impl_outcome', OUT.get(I, str(I)))
             bump('spec_verdict', VERD.get(S, str(S)))
@@ -501,7 +526,8 @@ def run(tier, seed, replay=None):
             earlier_on_slot = seen_slots.get(slot, 0)
             if slot is not None:
                 seen_slots[slot] = earlier_on_slot + 1
-            nontrivial = S in (1, 2) and (facts['shared_tv_positions'] or (facts['class_kind'] == 'generic' and earlier_on_slot >= 2))
+            nontrivial = S in (1, 2) and (facts['shared_tv_positions'] or (facts['class_kind'] == 'generic' and earlier_on_slot >= 2)
+                                          or (c['stream'] == 'reentrancy' and k == len(r['steps']) - 1))
             ck.note_case(json.dumps([r['world'], r['steps'][:k + 1]]) if nontrivial else str(ck.evaluations), nontrivial=nontrivial)
             what = judge_step(I, M, S, mm)
             if I == M and not what:
@@ -514,6 +540,17 @@ def run(tier, seed, replay=None):
     # shrink: re-run smaller histories that end in the failing step; report the smallest that still fails
     pending.sort(key=lambda p: (p[1], len(json.dumps(p[0]['steps'][p[1]]))))
     seen_kinds, todo = {}, []
+    for p in [q for q in pending if q[0]['stream'] == 'reentrancy'][:6]:
+        c, k, what, I, M, S, mm = p
+        r, m = res_of[id(c)]
+        case = dict(c, reified={'world': r['world'], 'steps': r['steps']}, facts=describe(c, r, k), impl_out=I,
+                    impl_agrees_with_model=(I == M), spec=VERD.get(S, S))
+        ck.violation(what + (' (the enclosing call; its body re-entered the same function)' if k == len(r['steps']) - 1 else ' (a re-entrant call)'),
+                     case, stream='reentrancy', matcher=matcher,
+                     extra={'impl': {'out': OUT.get(I, I), 'exc': r['exc'][k], 'all_outcomes': [OUT.get(x, x) for x in r['out']]},
+                            'model_out': OUT.get(M, M), 'spec': VERD.get(S, S), 'failing_step': k,
+                            'note': 'reified steps are listed innermost call first, the enclosing call last'})
+    pending = [q for q in pending if q[0]['stream'] != 'reentrancy']
     for p in pending:
         c, k, what, I, M, S, mm = p
         key = (what[:40], c['steps'][k][0], I == M)
@@ -549,7 +586,7 @@ def run(tier, seed, replay=None):
         ck.violation(w2, case, stream=cc['stream'], matcher=matcher,
                      extra={'impl': {'out': OUT.get(I2, I2), 'exc': r['exc'][kk], 'tables': r.get('tables')}, 'model_out': OUT.get(M2, M2),
                             'spec': VERD.get(S2, S2), 'failing_step': kk, 'original_history_length': len(c['steps'])})
-    ck.violations.sort(key=lambda v: (len(v['case']['steps']), len(json.dumps(v['case']['steps']))))
+    ck.violations.sort(key=lambda v: (len(v['case'].get('reified', v['case'])['steps']), len(json.dumps(v['case']['steps']))))
     ck.oblige('correspondence:typevars+generic-history', 'correspondence', not disagreements,
               json.dumps(disagreements[0])[:1500] if disagreements else f'{ck.traces_validated} steps agree with the model')
     # a silently degenerate generator must not look like coverage
@@ -568,7 +605,7 @@ def run(tier, seed, replay=None):
                       'user classes form a single-inheritance tree; class identity = class name',
                       'the Self entry of the binding table is not modelled (no typing.Self in the vocabulary)']
     return ck.finish(
-        rule='typevars: generated signature over bare / nested / constrained / bound / contravariant TypeVars x 2-4 keyword calls '
+        rule='reentrancy: a generated plain function whose body calls the same decorated function again (depth 1-2, other classes), each call judged alone; typevars: generated signature over bare / nested / constrained / bound / contravariant TypeVars x 2-4 keyword calls '
              '(same class, mixed classes, near miss, random values); generic-history: random histories of creations and calls over 1-3 '
              'instances of generic classes with 1-3 TypeVars, a non-generic @pedantic_class, a plain class and plain functions; '
              'distinct = (world, history prefix); non-trivial = verdict Must/MustNot and (a TypeVar shared by two positions, or a call on a '
